@@ -563,7 +563,7 @@ func nontrivial(sc *scenario, hist []string) bool {
 
 func generate(r *hxlib.Run, emit func(hxlib.Case)) {
 	g := &gen{r: r, rng: r.Rng}
-	total := r.Budget(6000, 200000)
+	total := r.Budget(12000, 200000)
 	type item struct {
 		line, kind string
 		sc         *scenario
